@@ -180,3 +180,29 @@ def to_poly_ssa(res, t, leaf):
         return None
     v = leaf(nm, t)
     return None if v is None else Poly.var(v)
+
+
+def exponent_ssa(res, t, selfname="arg1"):
+    """t = self^k as an ssa term of evaluation `res` (private helpers inlined by the evaluator); k or None"""
+    t = _ssa_strip(t)
+    if ssa_leaf_name(t) == selfname:
+        return 1
+    if isinstance(t, tuple) and t and t[0] == "call":
+        nm, args, uid = t[1], list(t[2]), t[3]
+        av = res.argvals.get(uid) or [None] * len(args)
+        vals = [(av[i] if i < len(av) and av[i] is not None else args[i]) for i in range(len(args))]
+        if CLONE.search(nm):
+            return exponent_ssa(res, vals[0], selfname)
+        if MUL.search(nm):
+            a, b = exponent_ssa(res, vals[0], selfname), exponent_ssa(res, vals[1], selfname)
+            return None if a is None or b is None else a + b
+        if SQUARE.search(nm):
+            a = exponent_ssa(res, vals[0], selfname)
+            return None if a is None else 2 * a
+        if SQN.search(nm):
+            a = exponent_ssa(res, vals[0], selfname)
+            n = vals[1]
+            if a is None or not (isinstance(n, tuple) and n[:1] == ("c",)):
+                return None
+            return a * (2 ** n[1])
+    return None
